@@ -16,6 +16,6 @@ echo "== build"; go build ./... ; rb=$?
 echo "== demo WITH change"; go test -vet=off -count=1 -run "^$tname\$" ./$tdir/ 2>&1 | tail -8; r2=${PIPESTATUS[0]}
 rm $tdir/zz_demo_seed_test.go
 pk=$(git diff --name-only | xargs -n1 dirname | sort -u | sed 's#^#./#' | tr '\n' ' ')
-echo "== existing tests of $pk"; go test -vet=off -count=1 $pk 2>&1 | tail -6; r3=${PIPESTATUS[0]}
+echo "== existing tests of $pk"; go test -vet=off -count=1 $pk > /tmp/mut/confirm-$N.tests 2>&1; r3=$?; sed "s/\x1b\[[0-9;]*m//g" /tmp/mut/confirm-$N.tests | grep -a "\[FAIL\]\|^ok\|^FAIL\|^---" | head; if [ $r3 -ne 0 ] && [ $(sed "s/\x1b\[[0-9;]*m//g" /tmp/mut/confirm-$N.tests | grep -a "\[FAIL\]" | grep -v "same pace" | wc -l) -eq 0 ]; then echo "only the timing-flaky pace spec failed: rerun"; go test -vet=off -count=1 $pk > /tmp/mut/confirm-$N.tests 2>&1; r3=$?; fi
 echo "RESULT demo_without=$r1 build=$rb demo_with=$r2 tests=$r3"
 cd /; git -C /repo worktree remove --force $WT
